@@ -83,6 +83,18 @@ class StmtMixin:
         if isinstance(e, ast.Name):
             if e.id in env.locals and isinstance(env.locals[e.id], ExcValue):
                 raise env.locals[e.id].exc
+            v = env.locals.get(e.id)
+            if isinstance(v, V):
+                # (added for C03, tls.negotiate) `raise x` where x is a SYMBOLIC value whose static type is an exception
+                # class C (or Optional[C]): raises an instance of C (callers / `raises` clauses see the class C; a
+                # subclass instance is covered by declaring C).  `raise None` is a TypeError.
+                ty = v.ty
+                if isinstance(ty, TOpt):
+                    self.fail(z3.Not(sym.opt_is_none(v)), "TypeError", "exceptions must derive from BaseException", st)
+                    ty = ty.inner
+                if isinstance(ty, TRef) and self.index.exc_is_subclass(ty.cls, "BaseException"):
+                    raise PyRaise(ty.cls, site=st.lineno)
+                raise Unsupported("raise of a %s value" % v.ty)
             raise PyRaise(e.id, site=st.lineno)
         if isinstance(e, ast.Attribute):
             raise PyRaise(e.attr, site=st.lineno)
@@ -322,10 +334,16 @@ class StmtMixin:
         env.loop_ord += 1
         contract = env.contract
         spec = (contract.loops.get(ordn) if contract else None)
+        if spec is None and contract is not None and "default" in contract.loops:
+            # (C03) loops={"default": dict(invariant=[...])}: the rule for a loop that has no entry of its own (a loop
+            # the contract's author did not know about): with invariant [] it is the trivially sound over-approximation
+            # "everything the body assigns is unknown afterwards" instead of Unsupported
+            spec = contract.loops["default"]
         fname = env.fname
         idxname = "_i%d" % ordn
         # --- for-loop desugaring
         it_expr = None
+        opt_seq = False
         if kind == "for":
             it = st.iter
             mode = None
@@ -341,6 +359,17 @@ class StmtMixin:
                     lo, hi = sym.as_int(rargs[0]), sym.as_int(rargs[1])
                 else:
                     raise Unsupported("range step")
+            elif isinstance(it, ast.Call) and isinstance(it.func, ast.Name) and it.func.id == "zip" and len(it.args) == 2 and not it.keywords and "zip" not in env.locals:
+                # (C03) `for x, y in zip(a, b)` over two bytes / list values: min(len(a), len(b)) iterations, the i-th
+                # item is the pair (a[i], b[i]) - zip() STOPS AT THE SHORTER input.  Both operands are evaluated once.
+                mode = "zip"
+                za, zb = self.evalv(it.args[0], env), self.evalv(it.args[1], env)
+                for z in (za, zb):
+                    if not (isinstance(z.ty, TList) or z.ty == TBytes):
+                        raise Unsupported("zip over %s" % z.ty)
+                env.locals["_zip%d_a" % ordn], env.locals["_zip%d_b" % ordn] = za, zb
+                zlen = lambda z: sym.list_len(z) if isinstance(z.ty, TList) else sym.bytes_len(z)
+                lo, hi = I(0), z3.If(zlen(za) <= zlen(zb), zlen(za), zlen(zb))
             else:
                 mode = "seq"
                 it_expr = it
@@ -358,6 +387,11 @@ class StmtMixin:
                     seq0 = self.enum_dict(seq0, env, "_seq%d" % ordn)
                 if not isinstance(seq0, V):
                     raise Unsupported("for over %s" % type(seq0).__name__)
+                if isinstance(seq0, V) and isinstance(seq0.ty, TOpt) and isinstance(seq0.ty.inner, TList):
+                    # (added for C03) `for x in <Optional[list]>`: iterating None is a TypeError, otherwise the list
+                    self.fail(z3.Not(sym.opt_is_none(seq0)), "TypeError", "'NoneType' object is not iterable", st)
+                    seq0 = sym.opt_val(seq0)
+                    opt_seq = True
                 if (isinstance(it_expr, ast.Call) or (isinstance(it_expr, ast.Subscript) and isinstance(it_expr.slice, ast.Slice))) and isinstance(seq0.ty, TList):
                     # the iterable expression is evaluated ONCE (Python semantics); iterate the bound snapshot
                     # (a call result or a slice copy `xs[:]` is a fresh list that the body cannot change)
@@ -389,9 +423,11 @@ class StmtMixin:
             if kind == "while":
                 return self.truth(self.evalv(st.test, env))
             i = env.locals[idxname].t
-            if mode == "range":
+            if mode in ("range", "zip"):
                 return i < hi
             seq = self.evalv(it_expr, env)
+            if opt_seq and isinstance(seq.ty, TOpt):
+                seq = sym.opt_val(seq)
             n = sym.list_len(seq) if isinstance(seq.ty, TList) else sym.bytes_len(seq)
             return i < n
 
@@ -399,8 +435,13 @@ class StmtMixin:
             i = env.locals[idxname]
             if mode == "range":
                 self.assign(st.target, i, env)
+            elif mode == "zip":
+                self.ctx.assume(i.t >= 0)  # the index starts at 0 and only grows (the head havoc forgets it)
+                self.assign(st.target, sym.tuple_mk([self.index_of(za, i), self.index_of(zb, i)]), env)
             else:
                 seq = self.evalv(it_expr, env)
+                if opt_seq and isinstance(seq.ty, TOpt):
+                    seq = sym.opt_val(seq)
                 if isinstance(seq.ty, TList) and not z3.is_int_value(z3.simplify(i.t)) and self.ctx.prove_quick(i.t >= 0, 200):
                     # the loop index is known to be non-negative (loop invariant): Python's negative-index normalisation
                     # is the identity, so the element is the plain array cell (a usable quantifier trigger); the loop
